@@ -66,6 +66,12 @@ class Executor:
 
     def _build(self, item):
         kind = item["kind"]
+        if kind == "process" and item.get("comments") is not None:
+            base = dict(item)
+            text = base.pop("comments")
+            pm = self._build(base)
+            pm.comments = text
+            return pm
         if kind == "process" and item.get("reexpress"):
             base = dict(item)
             u = base.pop("reexpress")
